@@ -74,10 +74,21 @@ Proof. exact asis_toctou_refuted. Qed.
 Print Assumptions C29_asis_toctou_refuted.
 
 Theorem C29_asis_double_unsubscribe_refuted :
-  exists s, run_strict false (init [true; true]) (toctou_trace ++ [LT 1; LT 1]) = Some s /\
+  exists s, run_strict false (init [true; true]) (toctou_trace ++ [LT 1; LT 1; LT 1]) = Some s /\
             count_msg (MUnsub 0) (log s ++ mbox s) = 2.
 Proof. exact asis_double_unsubscribe. Qed.
 Print Assumptions C29_asis_double_unsubscribe_refuted.
+
+(** Regression witness: a [drop] whose decision re-reads the shared counter after the decrement
+    (instead of using the value returned by its own fetch_sub, as the code does) sends two
+    Unsubscribes for ONE 1 -> 0 transition when the last two references are dropped concurrently;
+    the code as modelled sends one on the same schedule. *)
+Theorem C29_reread_after_decrement_refuted :
+  (exists s, run_strict_reread (init [true; true]) two_last_drops_trace = Some s /\
+             get (zeros s) 0 = 1 /\ count_msg (MUnsub 0) (log s ++ mbox s) = 2) /\
+  count_msg (MUnsub 0) (log (run_case true [true; true] two_last_drops_trace)) = 1.
+Proof. exact reread_after_decrement_refuted. Qed.
+Print Assumptions C29_reread_after_decrement_refuted.
 
 (** What the correspondence harness executes (skip disabled labels, then run to completion) is a
     reachable state, so the theorems above cover every state the runs visit. *)
